@@ -455,7 +455,7 @@ func loadTokenConsts() {
 	tokenConstOnce.Do(func() {
 		tokenConsts, tokenNames = map[string]int{}, map[int]string{}
 		fset := gotoken.NewFileSet()
-		f, err := goparser.ParseFile(fset, "/repo/pkg/token/token.go", nil, 0)
+		f, err := goparser.ParseFile(fset, core.RepoDir()+"/pkg/token/token.go", nil, 0)
 		if err != nil {
 			core.Fail("C16: cannot read pkg/token/token.go: %v", err)
 		}
